@@ -178,9 +178,29 @@ def rule_r2_r3_r4(ctx):
                   "binary operators of this tier are not folded left-to-right in a loop",
                   how="while loop assigning `left = left <op> right` in every branch")
     f = level["**"][1]
-    rec = [c for c in calls_in(f) if isinstance(c.func, ast.Attribute) and c.func.attr == f.name]
+    # right associativity: the exponent is parsed by a method from which this handler is reachable again
+    # (directly `_parse_power`, or `_parse_unary` → `_parse_power` so that 2**-3**2 nests on the right)
+    pcls = _parser(ctx)
+
+    def reaches(start: str, goal: str, seen=None) -> bool:
+        seen = seen or set()
+        if start == goal:
+            return True
+        if start in seen or start not in pcls.methods:
+            return False
+        seen.add(start)
+        return any(isinstance(c.func, ast.Attribute) and norm(c.func.value) == "self" and reaches(c.func.attr, goal, seen)
+                   for c in calls_in(pcls.methods[start]))
+
+    tier_of = {g.name: i for i, (g, _, _) in enumerate(chain)}
+    rec = [c for c in calls_in(f) if isinstance(c.func, ast.Attribute) and norm(c.func.value) == "self"
+           and c.func.attr.startswith("_parse_") and reaches(c.func.attr, f.name)
+           # … without going through a tighter-binding tier (a parenthesised primary re-enters the grammar, but
+           # `2**3**2` must not need parentheses to nest on the right)
+           and tier_of.get(c.func.attr, 99) <= tier_of[f.name]]
     in_loop = any(isinstance(n, ast.While) for n in own_nodes(f.node))
     pows = [n for n in own_nodes(f.node) if isinstance(n, ast.BinOp) and isinstance(n.op, ast.Pow)]
+    rec = [c for c in rec if isinstance(getattr(c, "_parent", None), ast.Assign) or any(c is p.right for p in pows)]
     ok = bool(rec) and not in_loop and bool(pows)
     if ok:
         # exponent is the recursive call's result, base is the first operand parsed
